@@ -213,6 +213,75 @@ func init() {
 		// the lookup of the shipped interpreter: Client.Get, on NotFound one APIReader.Get
 		withFn(d+"/reservation", "interpreterImpl", "GetReservation", func(fd *ast.FuncDecl) { strList("getReservationCalls", c17Calls(fd)) })
 		withFn(d+"/reservation", "interpreterImpl", "DeleteReservation", func(fd *ast.FuncDecl) { strList("deleteReservationCalls", c17Calls(fd)) })
+		// ----- ext3 -----
+		// Reconcile: the stale-read guard precedes doMigrate; assume is a PLAIN call after doMigrate with the object doMigrate
+		// worked on (a `defer assume(job.DeepCopy())` before doMigrate would remember the job as READ, not as written)
+		withFn(d, "Reconciler", "Reconcile", func(fd *ast.FuncDecl) {
+			var out []string
+			want := c17Set("Get", "isNewOrSameObj", "doMigrate", "assume")
+			var visit func(n ast.Node, deferred bool)
+			visit = func(n ast.Node, deferred bool) {
+				ast.Inspect(n, func(x ast.Node) bool {
+					switch v := x.(type) {
+					case *ast.DeferStmt:
+						visit(v.Call, true)
+						return false
+					case *ast.GoStmt:
+						visit(v.Call, true)
+						return false
+					case *ast.CallExpr:
+						if name := c17Callee(v.Fun); want[name] {
+							txt := name
+							if name == "assume" {
+								var args []string
+								for _, a := range v.Args {
+									args = append(args, c17Src(a))
+								}
+								txt = name + "(" + strings.Join(args, ", ") + ")"
+							}
+							if deferred {
+								txt = "defer " + txt
+							}
+							out = append(out, txt)
+						}
+					}
+					return true
+				})
+			}
+			visit(fd.Body, false)
+			strList("reconcileOrder", out)
+		})
+		// CreateOrUpdateReservationOptions: every assignment to ...AllocateOnce with its nesting depth (0 = unconditional)
+		withFn(d+"/reservation", "", "CreateOrUpdateReservationOptions", func(fd *ast.FuncDecl) {
+			var out []string
+			var visit func(n ast.Node, depth int)
+			visit = func(n ast.Node, depth int) {
+				ast.Inspect(n, func(x ast.Node) bool {
+					if x == nil || x == n {
+						return true
+					}
+					switch v := x.(type) {
+					case *ast.IfStmt, *ast.ForStmt, *ast.RangeStmt, *ast.SwitchStmt, *ast.TypeSwitchStmt, *ast.SelectStmt, *ast.FuncLit:
+						visit(v, depth+1)
+						return false
+					case *ast.AssignStmt:
+						for i, l := range v.Lhs {
+							if ch := c17Chain(l); len(ch) > 0 && ch[len(ch)-1] == "AllocateOnce" && i < len(v.Rhs) {
+								out = append(out, fmt.Sprintf("%d:%s", depth, c17Src(v.Rhs[i])))
+							}
+						}
+					}
+					return true
+				})
+			}
+			visit(fd.Body, 0)
+			strList("allocateOnceAssign", out)
+		})
+		// the scheduler side the harness plays: Succeeded only for an allocate-once reservation; nil defaults to true
+		withFn("pkg/scheduler/plugins/reservation/controller", "Controller", "syncStatus", func(fd *ast.FuncDecl) {
+			fmt.Fprintf(&e.out, "def syncStatusSucceededCond : String := %s\n\n", leanStr(c17CondGuarding(fd, "SetReservationSucceeded")))
+		})
+		withFn("apis/extension", "", "IsReservationAllocateOnce", func(fd *ast.FuncDecl) { strList("isAllocateOnceReturns", c17Returns(fd)) })
 		emit := func(lean, fn string, calls map[string]bool, stop string) {
 			t := &c17Tracer{calls: calls, roots: c17Set("job", "cond"), stop: stop}
 			fd := e.funcDecl(d, "Reconciler", fn)
